@@ -169,6 +169,11 @@ func genField(rng *rand.Rand, sb *strings.Builder, class string, s, f int, gener
 		}
 	case class == "G6" && rng.Intn(5) == 0:
 		decl = fmt.Sprintf("%s struct {\n\t\tA int `json:\"a\"`\n\t\tB string\n\t}", name)
+		if rng.Intn(2) == 0 {
+			// inner fields of an anonymous struct type that carry @tag comments of their own: the tool
+			// works on the fields of top-level struct types only, these stay as they are
+			decl = fmt.Sprintf("%s struct {\n\t\tA int `json:\"a\"` // @tag valid:\"ge=1\" form:\"a\"\n\t\tB string `json:\"b\"` // 内层 @tag valid:\"required\"\n\t}", name)
+		}
 	case class == "G7" && rng.Intn(2) == 0:
 		decl = fmt.Sprintf("%s struct{ Y int `json:\"y\"` }", name)
 		if rng.Intn(2) == 0 && annotate {
